@@ -95,6 +95,7 @@ func (c *zzWireClient) EventStream(ctx context.Context, opts ...grpc.CallOption)
 // re-handshakes — with the real loops running as goroutines between the steps.
 func ZZ_C16_Stream() {
 	K := zzrt.Param("K")
+	servePeerEventStream = func(p *peer) {} // the harness drives the stream of a re-created peer itself
 	A, B := zzNewFed("A"), zzNewFed("B")
 	pub := B.publisher.(*zzPublisher)
 	q := newEventQueue()
@@ -169,7 +170,20 @@ func ZZ_C16_Stream() {
 				zzrt.Cover("cut-with-events-on-the-wire")
 			}
 			cut(w)
-			switch zzrt.Choice(3) {
+			switch zzrt.Choice(4) {
+			case 3:
+				// A's failure detector drops B and sees it again (real nodeFail / nodeJoin):
+				// A starts over with a new peer, a new session and an empty queue, while B,
+				// which noticed nothing, still holds the old session
+				ev := serf.MemberEvent{Type: serf.EventMemberFailed, Members: []serf.Member{{Name: "B"}}}
+				A.nodeFail(ev)
+				ev.Type = serf.EventMemberJoin
+				A.nodeJoin(ev)
+				pA = A.peers["B"]
+				zzrt.Assert(pA != nil, "rejoined-node-becomes-a-peer")
+				q = pA.queue.(*eventQueue)
+				floor = emitted
+				zzrt.Cover("peer-recreated")
 			case 1:
 				B.sessionMgr.del("A")
 				floor = emitted
